@@ -33,4 +33,22 @@ PROPS = {
             "error_kind.Len:*": 100, "error_kind.Content:*": 100,
         },
     },
+    "C07": {
+        "level": "exploration",
+        "rule": "cases = generated rejected/partially decodable packets (faults behind VLAN/MACsec/IP/extension headers, "
+                "always with trailing bytes and trimming outer length fields, plus truncation sweeps) through all whole-packet "
+                "entry points of the 4 decoder families and the 13 IP-level entry points; every Err / lax stop error is "
+                "compared field by field with the set of truthful reports of the reference decoder; distinct = distinct "
+                "(entry point, error class, stop layer, faulty layer kind, fault behind offset 0) signatures",
+        "assumptions": COMMON_ASSUME + [
+            "reference decoder R and its truthful-report sets (DESIGN appendix A)",
+            "reporting LenSource::Slice is always accepted (the statement only constrains other sources)",
+        ],
+        "runs": {"quick": [dict(CHK)], "thorough": [dict(CHK)]},
+        "mandatory": {
+            "errors_judged": 10000, "truthful": 10000, "truthful_behind_offset0": 1000, "stop_layer_ok": 1000,
+            "cell.content": 100, "cell.*.Ipv4Total": 100, "cell.*.Ipv6Payload": 100, "cell.*.MacsecShort": 20,
+            "cell.UdpHeader.UdpLen": 10,
+        },
+    },
 }
